@@ -4,6 +4,7 @@ Nothing from <repo>/_build is used.  Every object file is keyed by sha256(flags 
 text of every header of the repository (+ engine headers for harnesses)), so an edit anywhere under the
 working tree forces recompilation of whatever can see it, and nothing stale can be linked.
 """
+import json
 import os, sys, hashlib, subprocess, glob, json
 from concurrent.futures import ThreadPoolExecutor
 
@@ -130,6 +131,50 @@ def variant_flags(repo, variant):
     return fl + KIND_FLAGS[kind], kind
 
 
+
+_OMP_CACHE = {}
+
+
+def openmp_sources(repo):
+    """Which repository sources does the repository's OWN build compile with OpenMP enabled?  Asked of CMake itself (configure only, ~1 s,
+    cached by the text of every CMakeLists.txt): a `#pragma omp ...` in a file that the project builds without -fopenmp is ignored by the
+    compiler there, and must be ignored in the verification build too, or the checks decide the property for a program nobody runs."""
+    if repo in _OMP_CACHE:
+        return _OMP_CACHE[repo]
+    texts = []
+    for d, dn, fs in os.walk(repo):
+        dn[:] = [x for x in dn if not x.startswith('.') and not x.startswith('_build') and x not in ('build', 'scratch')]
+        for f in fs:
+            if f == 'CMakeLists.txt' or f.endswith('.cmake'):
+                texts.append(os.path.relpath(os.path.join(d, f), repo).encode() + b'\0' + read(os.path.join(d, f)))
+    key = sha(*sorted(texts), repo)
+    cache = os.path.join(BUILD, 'cmake-probe', key + '.json')
+    if os.path.exists(cache):
+        res = set(json.load(open(cache)))
+    else:
+        import tempfile, shutil
+        os.makedirs(os.path.dirname(cache), exist_ok=True)
+        tmp = tempfile.mkdtemp(prefix='probe-', dir=os.path.dirname(cache))
+        try:
+            r = subprocess.run(['cmake', '-S', repo, '-B', tmp, '-G', 'Ninja', '-DCMAKE_EXPORT_COMPILE_COMMANDS=ON', '-DCMAKE_BUILD_TYPE=RelWithDebInfo'],
+                               stdout=subprocess.PIPE, stderr=subprocess.STDOUT, text=True, errors='replace')
+            cc = os.path.join(tmp, 'compile_commands.json')
+            if r.returncode != 0 or not os.path.exists(cc):
+                raise BuildError('cmake configure of the repository failed (needed to learn the per-file OpenMP setting): %s' % r.stdout[-2000:])
+            res = set()
+            for e in json.load(open(cc)):
+                f = os.path.realpath(e['file'])
+                if f.startswith(os.path.realpath(repo) + os.sep) and '-fopenmp' in e.get('command', ' '.join(e.get('arguments', []))):
+                    res.add(os.path.relpath(f, os.path.realpath(repo)))
+            t2 = cache + '.tmp%d' % os.getpid()
+            json.dump(sorted(res), open(t2, 'w'))
+            os.replace(t2, cache)
+        finally:
+            shutil.rmtree(tmp, ignore_errors=True)
+    _OMP_CACHE[repo] = res
+    return res
+
+
 def compile_one(job):
     src, obj, flags, cwd = job
     if os.path.exists(obj):
@@ -163,12 +208,16 @@ def repo_objects(repo, variant, with_main=False):
     objdir = os.path.join(BUILD, 'obj')
     os.makedirs(objdir, exist_ok=True)
     jobs, objs = [], []
-    fkey = sha(' '.join(f for f in flags if not f.startswith('-I')), CXX)
+    omp = openmp_sources(repo)
     for s in repo_sources(repo, with_main):
+        rel = os.path.relpath(os.path.realpath(s), os.path.realpath(repo))
+        # OpenMP only where the repository's own build enables it (third-party tinyxml2 has no pragmas: irrelevant there)
+        fl = flags if (rel in omp or rel.startswith('lib' + os.sep)) else [f for f in flags if f != '-fopenmp']
+        fkey = sha(' '.join(f for f in fl if not f.startswith('-I')), CXX)
         key = sha(fkey, hh, os.path.relpath(s, repo), read(s))
         obj = os.path.join(objdir, '%s-%s.o' % (os.path.basename(s)[:-4], key))
         objs.append(obj)
-        jobs.append((s, obj, flags, repo))
+        jobs.append((s, obj, fl, repo))
     run_jobs(jobs)
     return objs
 
